@@ -270,6 +270,21 @@ def withScan (p : D × String) : D × String :=
   let (d', sc) := d.scan
   (d', s!"{o} | {sc}")
 
+/-- `cancel_token`; `blocking`: when a cancellation was issued the submitter blocks in `poll(None)`, then the
+    harness settles -/
+def ctokenLine (d : D) (blocking : Bool) (id : Id) : D × String :=
+  let after (p : D × Bool) : D × String :=
+    let d1 := if blocking && p.2 then p.1.settle 64 else p.1
+    withScan (d1, if p.2 then "true" else "false")
+  if d.iour then
+    match d.ring.keys.slot id with
+    | .free => after (d, false)
+    | sl => if sl.isReady then after (d, false)
+            else after ({ d with ring := d.ring.cancel id }, true)
+  else
+    let (s, b) := cancelToken d.ps id
+    after (({ d with ps := s } : D).syncEpoll d.ps.epoll ((d.ps.track id).map (·.fd)), b)
+
 def toNats (l : List String) : Option (List Nat) := l.mapM (·.toNat?)
 
 def stepLine (d : D) (w : List String) : D × String :=
@@ -383,17 +398,17 @@ def stepLine (d : D) (w : List String) : D × String :=
         ({ d1 with lazy := d1.lazy.erase id }, s!"{id}={d1.showDone id r}:w{d1.keys.woken id + d1.keys.nudged id}")
       | (_, none) => (d, "none")
     | none => (d, "bad-op")
+  | ["flush"] =>
+    -- `Proactor::flush`: io_uring submits the staged SQEs (the kernel issues them) without reaping
+    if d.iour then
+      let (d1, e) := d.enterAll d.ring.sq
+      ({ d1 with ring := d1.ring.enter e }, "ok")
+    else (d, "ok")
   | ["ctoken", k] => match k.toNat? with
-    | some id =>
-      if d.iour then
-        -- `cancel_token` on io_uring
-        match d.ring.keys.slot id with
-        | .free => withScan (d, "false")
-        | sl => if sl.isReady then withScan (d, "false")
-                else withScan ({ d with ring := d.ring.cancel id }, "true")
-      else
-        let (s, b) := cancelToken d.ps id
-        withScan (({ d with ps := s } : D).syncEpoll d.ps.epoll ((d.ps.track id).map (·.fd)), if b then "true" else "false")
+    | some id => ctokenLine d false id
+    | none => (d, "bad-op")
+  | ["ctokenb", k] => match k.toNat? with
+    | some id => ctokenLine d true id
     | none => (d, "bad-op")
   | ["cancel", k] => match k.toNat? with
     | some id =>
